@@ -272,8 +272,8 @@ def choose_state_mutation(rnd, domain, objects, state):
             args.append(rnd.choice(c))
         return args
     kinds = ["rebuild-dicts", "add-fact", "add-fact", "add-fact", "put-fluent"]
-    kinds += ["discard-fact"] * 4 + ["del-group"] if facts else []
-    kinds += ["set-value"] * 4 + ["del-fluent"] if fluents else []
+    kinds += ["discard-fact"] * 4 + ["del-group", "remap-fact", "remap-fact"] if facts else []
+    kinds += ["set-value"] * 4 + ["del-fluent", "remap-fluent", "remap-fluent"] if fluents else []
     for _ in range(6):
         k = rnd.choice(kinds)
         if k == "rebuild-dicts":
@@ -292,8 +292,26 @@ def choose_state_mutation(rnd, domain, objects, state):
             return {"kind": k, "name": n, "args": list(args), "how": rnd.choice(["discard", "remove", "difference_update", "new-set"])}
         if k == "del-group":
             return {"kind": k, "name": rnd.choice(facts)[0], "how": rnd.choice(["del", "clear"])}
+        if k == "remap-fact" and [x for x in facts if x[0] in domain.predicates and x[1]]:
+            n, args = rnd.choice([x for x in facts if x[0] in domain.predicates and x[1]])
+            new = random_args(domain.predicates[n].signature, False)
+            if new is None or len(new) != len(args) or (n, tuple(new)) in facts:
+                continue
+            return {"kind": k, "name": n, "args": list(args), "new_args": new}
+        if k == "remap-fluent" and [x for x in fluents if x[0] in domain.functions and x[1]]:
+            n, args = rnd.choice([x for x in fluents if x[0] in domain.functions and x[1]])
+            new = random_args(domain.functions[n].signature, True)
+            if new is None or len(new) != len(args) or (n, tuple(new)) in fluents:
+                continue
+            return {"kind": k, "name": n, "args": list(args), "new_args": new}
         if k == "set-value":
             n, args = rnd.choice(fluents)
+            cur = [f.value for f in state.state_fluents.values() if (f.name, tuple(fluent_vars(f))) == (n, args)][0]
+            if rnd.random() < 0.4 and isinstance(cur, float) and cur == cur and abs(cur) != float("inf"):
+                # a value a comparison of numbers cannot tell from the present one, or only just
+                import math
+                near = [-cur, -cur, cur] if cur == 0 else [-cur, cur, math.nextafter(cur, math.inf), math.nextafter(cur, -math.inf)]
+                return {"kind": k, "name": n, "args": list(args), "val": fhex(rnd.choice(near))}
             return {"kind": k, "name": n, "args": list(args), "val": fhex(rnd.choice(VALUES))}
         if k == "del-fluent":
             n, args = rnd.choice(fluents)
